@@ -1,7 +1,26 @@
-(* C05 -- placeholder until the session theorems for this property are in place *)
-From SF Require Import Session Session_proofs Session_c07.
-Theorem C05_pre_logon_frame : forall cfg s o s' os,
-    not_logged s -> pools_ok s -> not_app_send o -> step cfg s o = (s', os) ->
-    Forall post_logon_types (wire_types os).
-Proof. exact logon_step_wires. Qed.
-Print Assumptions C05_pre_logon_frame.
+(* C05 -- Outbound messages are numbered 1,2,3,... (sequential layer; the concurrency layer is
+   added to this file when the structural extraction is in place). *)
+From SF Require Import Bytes Values Wire Parse Session Session_proofs Session_clean.
+
+(* every message that Session.send transmits carries the counter value it has just advanced to,
+   the session's sender and target identifiers and a sending time, and the counter has advanced
+   by exactly one *)
+Theorem C05_send_numbering :
+  forall cfg s m, clean cfg s -> save_first s -> m_header m = tpl_Header ->
+    exists s' calls,
+      session_send cfg s m = (s', calls ++ [OWire (fst (prepare (stamped s m)))])
+      /\ Forall is_call calls /\ In (OSave (s_cnt_out s + 1) true) calls
+      /\ store_get (s_store s') (s_cnt_out s + 1) = Some (stamped s m)
+      /\ (forall k, k <> (s_cnt_out s + 1)%Z -> store_get (s_store s') k = store_get (s_store s) k)
+      /\ same_control s s' /\ s_cnt_out s' = (s_cnt_out s + 1)%Z /\ clean cfg s' /\ save_first s'.
+Proof. exact session_send_clean. Qed.
+Print Assumptions C05_send_numbering.
+
+Theorem C05_stamp :
+  forall s m, m_header m = tpl_Header ->
+    seq_of (stamped s m) = (s_cnt_out s + 1)%Z /\
+    get_string tag_TargetCompID (m_header (stamped s m)) = st_target (s_settings s) /\
+    get_string tag_SenderCompID (m_header (stamped s m)) = st_sender (s_settings s) /\
+    get_string tag_SendingTime (m_header (stamped s m)) = sending_time_placeholder.
+Proof. intros s m H. split; [apply stamped_seq; exact H|apply stamped_ids; exact H]. Qed.
+Print Assumptions C05_stamp.
